@@ -59,17 +59,40 @@ func c10Between(s, a, b string) (string, bool) {
 	return rest[:j], true
 }
 
-// c10Keep: how many of the rows a filter written in SQL keeps. Only the two spellings of
-// "keep what the predicate does not select" are interpreted; anything else is out of model.
+// c10Keep: how many of the rows a filter written in SQL keeps, by SQL's three-valued logic.
+// The spellings interpreted are the ways of writing a test on the truth value of the
+// predicate p: NOT (p), (p) IS [NOT] TRUE / FALSE / NULL, NOT ((p) IS TRUE), p itself.
+// Anything else is out of model.
 func c10Keep(filter string, r c10Rows) c10Rows {
+	p := c10Where
+	var t, f, n bool // which truth values of p the filter lets through
 	switch strings.TrimSpace(filter) {
-	case "NOT (" + c10Where + ")":
-		return c10Rows{F: r.F} // NOT NULL is NULL: the row is not kept
-	case "(" + c10Where + ") IS NOT TRUE":
-		return c10Rows{F: r.F, N: r.N}
+	case "NOT (" + p + ")", "(" + p + ") IS FALSE", "NOT (" + p + ") IS TRUE":
+		f = true // NOT NULL is NULL: the row is not kept
+	case "(" + p + ") IS NOT TRUE", "NOT ((" + p + ") IS TRUE)", "(" + p + ") IS FALSE OR (" + p + ") IS NULL":
+		f, n = true, true
+	case "(" + p + ") IS NOT FALSE":
+		t, n = true, true
+	case p, "(" + p + ")", "(" + p + ") IS TRUE":
+		t = true
+	case "(" + p + ") IS NULL":
+		n = true
+	case "(" + p + ") IS NOT NULL":
+		t, f = true, true
+	default:
+		zz.OutOfModel("keep filter " + filter)
 	}
-	zz.OutOfModel("keep filter " + filter)
-	return c10Rows{}
+	var out c10Rows
+	if t {
+		out.T = r.T
+	}
+	if f {
+		out.F = r.F
+	}
+	if n {
+		out.N = r.N
+	}
+	return out
 }
 
 func c10QueryContext(db *sql.DB, ctx context.Context, q string, args ...interface{}) (*sql.Rows, error) {
